@@ -64,12 +64,129 @@ pub enum Cmd {
     SetPipefail(bool),
     /// `trap 'p <label> ' EXIT`
     TrapExit(u16),
+    /// a failing command of a given category (C10); `label` marks the probe that must not run
+    Fail { kind: FailKind, label: u16 },
+    SetM(bool),
+    SetU(bool),
+    /// a line that is a syntax error (`fi` alone); only meaningful at the top level
+    SyntaxError,
     /// `gen N`: writes N pattern bytes to stdout
     Gen(u32),
     /// `cat`: copies stdin to stdout
     Cat,
     /// `sink`: reads stdin to EOF and traces what it saw
     Sink,
+}
+
+/// Categories of failing commands (docs/src/termination.md "Shell errors").
+#[derive(Clone, Copy, Debug, PartialEq, Eq, Hash)]
+pub enum FailKind {
+    /// `nosuchcmd` -> 127, continue
+    NotFound,
+    /// `p L </nonexistent` -> command not run, non-zero, continue
+    RedirRegular,
+    /// `f9 </nonexistent` (function) -> not run, non-zero, continue
+    RedirFunction,
+    /// `{ p L; } </nonexistent` -> not run, non-zero, continue
+    RedirCompound,
+    /// `: </nonexistent` -> shell error, the shell exits
+    RedirSpecial,
+    /// `command : </nonexistent` -> plain failure
+    RedirCommandSpecial,
+    /// `ro=1 :` / `ro=1 p L` / `ro=1` -> assignment error, the shell exits
+    AssignRoSpecial,
+    AssignRoRegular,
+    AssignRoAlone,
+    /// `p L ${u?}` -> expansion error, the shell exits
+    ExpansionError,
+    /// `set -u` in effect: `p L $u` -> expansion error, the shell exits
+    Nounset,
+    /// `shift 5` -> error of a special built-in, the shell exits
+    SpecialUsage,
+    /// `command shift 5` -> plain failure
+    CommandSpecialUsage,
+}
+
+pub const FAIL_KINDS: [FailKind; 13] = [
+    FailKind::NotFound,
+    FailKind::RedirRegular,
+    FailKind::RedirFunction,
+    FailKind::RedirCompound,
+    FailKind::RedirSpecial,
+    FailKind::RedirCommandSpecial,
+    FailKind::AssignRoSpecial,
+    FailKind::AssignRoRegular,
+    FailKind::AssignRoAlone,
+    FailKind::ExpansionError,
+    FailKind::Nounset,
+    FailKind::SpecialUsage,
+    FailKind::CommandSpecialUsage,
+];
+
+impl FailKind {
+    /// true if the failure is a shell error that makes a non-interactive shell exit
+    pub fn aborts(self) -> bool {
+        matches!(
+            self,
+            FailKind::RedirSpecial
+                | FailKind::AssignRoSpecial
+                | FailKind::AssignRoRegular
+                | FailKind::AssignRoAlone
+                | FailKind::ExpansionError
+                | FailKind::Nounset
+                | FailKind::SpecialUsage
+        )
+    }
+    pub fn text(self, label: u16) -> String {
+        let l = label_name(label);
+        match self {
+            FailKind::NotFound => "nosuchcmd".into(),
+            FailKind::RedirRegular => format!("p {l} </nonexistent/x"),
+            FailKind::RedirFunction => "f9 </nonexistent/x".into(),
+            FailKind::RedirCompound => format!("{{ p {l}; }} </nonexistent/x"),
+            FailKind::RedirSpecial => ": </nonexistent/x".into(),
+            FailKind::RedirCommandSpecial => "command : </nonexistent/x".into(),
+            FailKind::AssignRoSpecial => "ro=1 :".into(),
+            FailKind::AssignRoRegular => format!("ro=1 p {l}"),
+            FailKind::AssignRoAlone => "ro=1".into(),
+            FailKind::ExpansionError => format!("p {l} ${{unsetvar?}}"),
+            FailKind::Nounset => format!("p {l} $unsetvar"),
+            FailKind::SpecialUsage => "shift 5".into(),
+            FailKind::CommandSpecialUsage => "command shift 5".into(),
+        }
+    }
+}
+
+/// Symbolic "some non-zero status" (the manual only says "non-zero").
+pub const NZ: i32 = -7777;
+
+pub fn status_str(s: i32) -> String {
+    if s == NZ { "NZ".into() } else { s.to_string() }
+}
+
+/// Does the observed status/marker match the expected one (NZ = any non-zero)?
+pub fn status_matches(expected: i32, actual: i32) -> bool {
+    if expected == NZ { actual != 0 } else { expected == actual }
+}
+
+pub fn marker_matches(expected: &str, actual: &str) -> bool {
+    if expected == actual {
+        return true;
+    }
+    match (expected.rsplit_once(':'), actual.rsplit_once(':')) {
+        (Some((el, "NZ")), Some((al, av))) => el == al && av.parse::<i32>().is_ok_and(|v| v != 0),
+        _ => false,
+    }
+}
+
+pub fn traces_match(
+    expected: &BTreeMap<String, Vec<String>>,
+    actual: &BTreeMap<String, Vec<String>>,
+) -> bool {
+    expected.len() == actual.len()
+        && expected.iter().zip(actual.iter()).all(|((ek, ev), (ak, av))| {
+            ek == ak && ev.len() == av.len() && ev.iter().zip(av).all(|(e, a)| marker_matches(e, a))
+        })
 }
 
 pub const PATS: [&str; 3] = ["a", "b", "*"];
@@ -369,6 +486,10 @@ impl Printer {
                 (if *on { "set -o pipefail" } else { "set +o pipefail" }).into()
             }
             Cmd::TrapExit(l) => format!("trap 'p {}' EXIT", label_name(*l)),
+            Cmd::Fail { kind, label } => kind.text(*label),
+            Cmd::SetM(on) => (if *on { "set -m" } else { "set +m" }).into(),
+            Cmd::SetU(on) => (if *on { "set -u" } else { "set +u" }).into(),
+            Cmd::SyntaxError => "fi".into(),
             Cmd::Gen(n) => format!("gen {n}"),
             Cmd::Cat => "cat".into(),
             Cmd::Sink => "sink".into(),
@@ -403,6 +524,8 @@ pub enum Divert {
     Continue(u32),
     Return(i32),
     Exit(i32),
+    /// shell error: the (sub)shell process exits with this status
+    ShellError(i32),
     Unspecified(&'static str),
 }
 
@@ -428,6 +551,9 @@ struct State {
     inp: u64,
     out: u64,
     consumed: bool,
+    monitor: bool,
+    in_subshell: bool,
+    nounset: bool,
 }
 
 #[derive(Clone, Debug, PartialEq, Eq)]
@@ -471,11 +597,12 @@ impl Eval {
         cs.exit_trap = None;
         cs.jobs.clear();
         cs.lastbg = st.lastbg.clone();
+        cs.in_subshell = true;
         let was_fn = cs.in_function;
         let r = self.eval(&mut cs, c);
         let status = match r {
             Ok(()) => cs.status,
-            Err(Divert::Exit(s)) => s,
+            Err(Divert::Exit(s)) | Err(Divert::ShellError(s)) => s,
             Err(Divert::Unspecified(w)) => return Err(Divert::Unspecified(w)),
             Err(Divert::Return(_)) if was_fn => {
                 return Err(Divert::Unspecified("return escaping a subshell"));
@@ -486,13 +613,13 @@ impl Eval {
         let status = self.run_exit_trap(&mut cs, status)?;
         st.out = cs.out;
         st.consumed |= cs.consumed;
-        Ok((cs.proc, status & 0xff))
+        Ok((cs.proc, if status == NZ { NZ } else { status & 0xff }))
     }
 
     fn run_exit_trap(&mut self, st: &mut State, status: i32) -> Result<i32, Divert> {
         if let Some(l) = st.exit_trap.take() {
             st.status = status;
-            self.trace(st, format!("{}:{}", label_name(l), st.status));
+            self.trace(st, format!("{}:{}", label_name(l), status_str(st.status)));
             // `p label` returns 0 but $? is restored after a trap... for EXIT the
             // shell exits with the status it had before the trap unless the trap exits
             return Ok(status);
@@ -507,7 +634,7 @@ impl Eval {
         }
         match c {
             Cmd::P { label, st: s } => {
-                self.trace(st, format!("{}:{}", label_name(*label), st.status));
+                self.trace(st, format!("{}:{}", label_name(*label), status_str(st.status)));
                 st.status = *s;
                 self.errexit(st)
             }
@@ -556,6 +683,12 @@ impl Eval {
                 Ok(())
             }
             Cmd::Pipe(v) if v.len() == 1 => self.eval(st, &v[0]),
+            Cmd::Pipe(_) if st.monitor && !st.in_subshell => {
+                // job control: the whole pipeline runs in one more subshell
+                let (_, s) = self.child(st, c)?;
+                st.status = s;
+                self.errexit(st)
+            }
             Cmd::Pipe(v) => {
                 let mut statuses = vec![];
                 let (saved_inp, saved_consumed) = (st.inp, st.consumed);
@@ -803,6 +936,33 @@ impl Eval {
                 st.status = 0;
                 Ok(())
             }
+            Cmd::SetM(on) => {
+                st.monitor = *on;
+                st.status = 0;
+                Ok(())
+            }
+            Cmd::SetU(on) => {
+                st.nounset = *on;
+                st.status = 0;
+                Ok(())
+            }
+            Cmd::SyntaxError => {
+                self.stderr = true;
+                st.status = NZ;
+                Err(Divert::ShellError(NZ))
+            }
+            Cmd::Fail { kind, .. } => {
+                self.stderr = true;
+                if *kind == FailKind::Nounset && !st.nounset {
+                    return Err(Divert::Unspecified("nounset leaf without set -u"));
+                }
+                if kind.aborts() {
+                    st.status = NZ;
+                    return Err(Divert::ShellError(NZ));
+                }
+                st.status = if *kind == FailKind::NotFound { 127 } else { NZ };
+                self.errexit(st)
+            }
             Cmd::Gen(n) => {
                 st.out += *n as u64;
                 st.status = 0;
@@ -920,11 +1080,14 @@ pub fn run(c: &Cmd) -> Result<Outcome, &'static str> {
         inp: 0,
         out: 0,
         consumed: false,
+        monitor: false,
+        in_subshell: false,
+        nounset: false,
     };
     let r = ev.eval(&mut st, c);
     let status = match r {
         Ok(()) => st.status,
-        Err(Divert::Exit(s)) => s,
+        Err(Divert::Exit(s)) | Err(Divert::ShellError(s)) => s,
         Err(Divert::Unspecified(w)) => return Err(w),
         Err(_) => return Err("break/continue/return reaching the top level"),
     };
@@ -955,6 +1118,10 @@ fn relabel_from(c: &mut Cmd, n: &mut u16) {
         }
         Cmd::TrapExit(l) => {
             *l = *n;
+            *n += 1;
+        }
+        Cmd::Fail { label, .. } => {
+            *label = *n;
             *n += 1;
         }
         Cmd::Seq(v) | Cmd::Pipe(v) => v.iter_mut().for_each(|x| relabel_from(x, n)),
